@@ -11,7 +11,7 @@ from mc import symtree as st
 
 ROOTS = st.ROOT_NAMES + ('typedobj', 'dict_sealed', 'list_sealed', 'obj_sealed', 'list_ro', 'dict_ro',
                          'dict_partial', 'list_partial', 'obj_partial', 'withref', 'withleaf', 'withtuple',
-                         'unsealed_default_sealed', 'unsealed_root')
+                         'unsealed_default_sealed', 'unsealed_root', 'instance_acc', 'instance_acc_root')
 HOWS = ('clone_deep', 'clone_shallow', 'deepcopy', 'copy')
 
 
